@@ -294,6 +294,25 @@ def reference_batch(actor_params, depth, width, activation, ns, low, high, squas
     return [dict(norm_obs=A(x[i]), mean_raw=A(mean_raw[i]), std=A(std), action=A(unsq(mean_raw[i])), sample_raw=A(smp[i]), sample=A(unsq(smp[i]))) for i in range(n)]
 
 
+def reference_one_key(actor_params, depth, width, activation, ns, low, high, squash, obs, key):
+    """the actor's own sample for a batch of observations and a single key"""
+    import jax.numpy as jnp
+    import numpy as onp
+
+    from rex.actor_critic import Actor
+
+    obs = jnp.asarray(obs, dtype=jnp.float32)
+    if ns is not None:
+        mean, var, clip = ns
+        x = jnp.clip((obs - jnp.asarray(mean, jnp.float32)[None]) / jnp.sqrt(jnp.asarray(var, jnp.float32) + 1e-8)[None], -clip, clip)
+    else:
+        x = obs
+    actor = Actor(int(onp.asarray(low).shape[0]), num_hidden_units=width, num_hidden_layers=depth, hidden_activation=activation, state_independent_std=True)
+    smp = actor.apply({"params": actor_params}, x).sample(seed=key)
+    lo, hi = jnp.asarray(low, jnp.float32), jnp.asarray(high, jnp.float32)
+    return onp.asarray(0.5 * (jnp.tanh(smp) + 1.0) * (hi - lo) + lo if squash else jnp.clip(smp, lo, hi))
+
+
 def net_case(spec):
     """spec: dict(seed, depth, width, obs_dim, act_dim, activation, squash, normalize, clip, n_obs, tiny_var). Runs the REAL
     Policy (rex.ppo) and an independent reference (rex.actor_critic.Actor + written-out normalisation / squashing) on the same
@@ -372,6 +391,10 @@ def net_case(spec):
     got_det_u = onp.stack([onp.asarray(policy.get_action(jnp.asarray(obs[i]))) for i in range(nu)])
     got_smp_u = onp.stack([onp.asarray(policy.get_action(jnp.asarray(obs[i]), rng=keys[i])) for i in range(nu)])
 
+    # a whole batch of observations with ONE key: the actor's Gaussian is MultivariateNormalDiag(mean[n, act], std).sample(seed=key)
+    got_bat = onp.asarray(policy.get_action(jnp.asarray(obs), rng=keys[0]))
+    ref_bat = reference_one_key(ap, depth, width, activation, ns, low, high, bool(spec["squash"]), obs, keys[0])
+
     # ---- independent reference
     refs = reference_batch(ap, depth, width, activation, ns, low, high, bool(spec["squash"]), obs, keys)
     r0 = reference_action(ap, depth, width, activation, ns, low, high, bool(spec["squash"]), obs[0], keys[0])  # unbatched, through pi.sample itself
@@ -390,7 +413,7 @@ def net_case(spec):
         obs=L(obs), got_det=L(got_det), got_smp=L(got_smp), got_det_u=L(got_det_u), got_smp_u=L(got_smp_u),
         ref_det=[L(r["action"]) for r in refs], ref_smp=[L(r["sample"]) for r in refs], ref_mean_raw=[L(r["mean_raw"]) for r in refs],
         ref_std=L(refs[0]["std"]), ref_norm_obs=[L(r["norm_obs"]) for r in refs], eps=[L(e) for e in eps], normal=[L(x) for x in normal],
-        np_mean=[L(m) for m in np_mean], mag=mags,
+        np_mean=[L(m) for m in np_mean], mag=mags, got_bat=L(got_bat), ref_bat=L(ref_bat),
     )  # fmt: skip
     if spec.get("with_layers", True):
         out["layers"] = [dict(kernel=L(W), bias=L(b)) for W, b in layers]
